@@ -14,17 +14,20 @@ def be16 (n : Nat) : Bytes := [UInt8.ofNat (n / 256), UInt8.ofNat n]
 def be32 (n : Nat) : Bytes :=
   [UInt8.ofNat (n / 16777216), UInt8.ofNat (n / 65536), UInt8.ofNat (n / 256), UInt8.ofNat n]
 
+/-! Literal factors are written on the LEFT of every product: `Nat.mul` recurses on its second
+argument, and the kernel unfolds `x * 16777216` (x not a literal) sixteen million levels deep. -/
+
 def rd8 : Bytes → Option (Nat × Bytes)
   | b :: r => some (b.toNat, r)
   | [] => none
 
 def rd16 : Bytes → Option (Nat × Bytes)
-  | a :: b :: r => some (a.toNat * 256 + b.toNat, r)
+  | a :: b :: r => some (256 * a.toNat + b.toNat, r)
   | _ => none
 
 def rd32 : Bytes → Option (Nat × Bytes)
   | a :: b :: c :: d :: r =>
-    some (a.toNat * 16777216 + b.toNat * 65536 + c.toNat * 256 + d.toNat, r)
+    some (16777216 * a.toNat + 65536 * b.toNat + 256 * c.toNat + d.toNat, r)
   | _ => none
 
 /-- exactly `n` bytes or failure (never a short read) -/
@@ -39,14 +42,14 @@ theorem rd8_cons (b : UInt8) (r : Bytes) : rd8 (b :: r) = some (b.toNat, r) := r
 
 theorem rd16_be16 (n : Nat) (h : n < 65536) (r : Bytes) : rd16 (be16 n ++ r) = some (n, r) := by
   simp only [be16, List.cons_append, List.nil_append, rd16]
-  have : (UInt8.ofNat (n / 256)).toNat * 256 + (UInt8.ofNat n).toNat = n := by
+  have : 256 * (UInt8.ofNat (n / 256)).toNat + (UInt8.ofNat n).toNat = n := by
     simp; omega
   rw [this]
 
 theorem rd32_be32 (n : Nat) (h : n < 4294967296) (r : Bytes) : rd32 (be32 n ++ r) = some (n, r) := by
   simp only [be32, List.cons_append, List.nil_append, rd32]
-  have : (UInt8.ofNat (n / 16777216)).toNat * 16777216 + (UInt8.ofNat (n / 65536)).toNat * 65536
-      + (UInt8.ofNat (n / 256)).toNat * 256 + (UInt8.ofNat n).toNat = n := by
+  have : 16777216 * (UInt8.ofNat (n / 16777216)).toNat + 65536 * (UInt8.ofNat (n / 65536)).toNat
+      + 256 * (UInt8.ofNat (n / 256)).toNat + (UInt8.ofNat n).toNat = n := by
     simp; omega
   rw [this]
 
